@@ -26,6 +26,9 @@ def main():
             alarms += len(fired)
             meta = json.load(open(os.path.join(base, i, "meta.json")))
             print(f"{i:12s} {'silent' if not fired else 'ALARM ' + ' '.join(p + ':' + ','.join(x.split(':',1)[0] + '/' + x.split(':',1)[1][:40] for x in v[:2]) for p, v in fired.items())}   [{meta.get('kind')}: {meta.get('site')}]", flush=True)
-    json.dump(res, open(os.path.join(VERIF, "selftest", "benign_results.json"), "w"), indent=1)
+    rp = os.path.join(VERIF, "selftest", "benign_results.json")
+    prev = json.load(open(rp)) if (args and os.path.exists(rp)) else {}
+    prev.update(res)
+    json.dump({k: prev[k] for k in sorted(prev) if os.path.isdir(os.path.join(base, k))}, open(rp, "w"), indent=1)
     print(f"false alarms: {alarms} (property x refactoring pairs) over {len(ids)} refactorings")
 main()
